@@ -532,6 +532,148 @@ theorem dictPropToArr_domain {ι : Type} (data : List (ι × Attrs)) (name : Str
   · exact dictPropToArr_regular K sh data name h
   · exact dictPropToArr_ragged K r w data name h
 
+/-! ### `None` entries next to lists (repair C03-06) -/
+
+theorem length_orMasks (a b : List Bool) (h : a.length = b.length) : (orMasks a b).length = a.length := by
+  induction a generalizing b with
+  | nil => cases b <;> rfl
+  | cons x t ih =>
+    cases b with
+    | nil => simp at h
+    | cons y s => simp [orMasks, ih s (by simpa using h)]
+
+theorem getElem?_orMasks (a b : List Bool) (i : Nat) (x y : Bool) (ha : a[i]? = some x) (hb : b[i]? = some y) :
+    (orMasks a b)[i]? = some (x || y) := by
+  induction a generalizing b i with
+  | nil => simp at ha
+  | cons p t ih =>
+    cases b with
+    | nil => simp at hb
+    | cons q s =>
+      cases i with
+      | zero => simp at ha hb; subst ha; subst hb; simp [orMasks]
+      | succ j => simp at ha hb; simpa [orMasks] using ih s j ha hb
+
+/-- what an element shows for a written attribute value: `None` (admitted next to lists) is a
+missing value, everything else the value itself -/
+def shown : Option PyVal → Option PyVal
+  | some .none => Option.none
+  | o => o
+
+/-- **dict layer with `None` entries (repair C03-06)**: a property whose non-`None` present values
+are ragged-domain lists (`RaggedVals`, at least one of them) and whose other elements lack the
+attribute or hold `None` — in any combination — becomes one variable-length column in which an
+element is flagged missing iff it lacks the attribute **or** holds `None`, and every list reads
+back exactly. -/
+theorem dictPropToArr_none {ι : Type} (K : LeafClass) (r w : Nat) (data : List (ι × Attrs)) (name : String)
+    (h : RaggedVals K r w ((present data name).filter (fun x => !x.isNone)))
+    (harr : ∃ x ∈ present data name, x.isArr = true)
+    (hnone : ∃ x ∈ filledValues data name, x.isNone = true) :
+    ∃ c, dictPropToArr data name = .ok c ∧ c.WF data.length ∧
+      ∀ i (hi : i < data.length), c.entry i = shown ((data[i]).2.lookup name) := by
+  obtain ⟨hK, hr, hall⟩ := h
+  obtain ⟨xa, hxa, hxarr⟩ := harr
+  -- every filled value is a present value or `None`
+  have hfilled : ∀ x ∈ filledValues data name, x ∈ present data name ∨ x = .none := by
+    intro x hx
+    obtain ⟨d, hd, rfl⟩ := List.mem_map.1 hx
+    cases hl : d.2.lookup name with
+    | some v => exact Or.inl (by simpa using mem_present data name d v hd hl)
+    | none =>
+      simp only [Option.getD_none, determineDefaultValue]
+      cases hf : data.findSome? (fun d => d.2.lookup name) with
+      | none =>
+        exfalso
+        obtain ⟨d', hd', hl'⟩ := List.mem_filterMap.1 hxa
+        have := List.findSome?_eq_none_iff.1 hf d' hd'
+        simp [hl'] at this
+      | some v0 =>
+        obtain ⟨d0, hd0, hv0⟩ := List.exists_of_findSome?_eq_some hf
+        have hv0p : v0 ∈ present data name := mem_present data name d0 v0 hd0 hv0
+        cases v0 with
+        | none => exact Or.inr rfl
+        | arr sh fl => exact Or.inl hv0p
+        | sc v =>
+          exfalso
+          obtain ⟨sh, fl, he, _⟩ := hall (.sc v) (List.mem_filter.2 ⟨hv0p, rfl⟩)
+          cases he
+  have hxaf : xa ∈ filledValues data name := by
+    obtain ⟨d, hd, hl⟩ := List.mem_filterMap.1 hxa
+    exact List.mem_map.2 ⟨d, hd, by simp [hl]⟩
+  have hanyN : (filledValues data name).any PyVal.isNone = true := by
+    obtain ⟨x, hx, hn⟩ := hnone
+    exact List.any_eq_true.2 ⟨x, hx, hn⟩
+  have hanyA : (filledValues data name).any PyVal.isArr = true := List.any_eq_true.2 ⟨xa, hxaf, hxarr⟩
+  -- the non-None filled values are ragged-domain lists
+  have hfacts : ∀ y ∈ (filledValues data name).filter (fun x => !x.isNone),
+      ∃ sh fl, y = .arr sh fl ∧ sh.length = r ∧ (∀ v ∈ fl, K.holds v = true) ∧ (fl ≠ [] ∨ K = .float) ∧ strWidth y = w := by
+    intro y hy
+    obtain ⟨hy1, hy2⟩ := List.mem_filter.1 hy
+    rcases hfilled y hy1 with hp | rfl
+    · exact hall y (List.mem_filter.2 ⟨hp, hy2⟩)
+    · simp [PyVal.isNone] at hy2
+  have hctd : commonTypeDims ((filledValues data name).filter (fun x => !x.isNone)) = .ok (K.dtype, w, r) := by
+    cases hflt : (filledValues data name).filter (fun x => !x.isNone) with
+    | nil =>
+      exfalso
+      have : xa ∈ (filledValues data name).filter (fun x => !x.isNone) := by
+        apply List.mem_filter.2
+        refine ⟨hxaf, ?_⟩
+        cases xa <;> simp_all [PyVal.isArr, PyVal.isNone]
+      rw [hflt] at this; simp at this
+    | cons x xs =>
+      apply commonTypeDims_uniform
+      intro y hy
+      obtain ⟨sh, fl, rfl, hlen, hleaves, hne', hw⟩ := hfacts y (by rw [hflt]; exact hy)
+      exact ⟨elemDtype_of_class K hK sh fl hleaves hne', hw, by simpa [pyRow] using hlen⟩
+  have hd : K.dtype ≠ .u64 := by cases K <;> simp_all [LeafClass.dtype]
+  have hrows : mapE (fun x => if x.isNone then .ok ((List.replicate r 0, []) : Row) else varLenRow K.dtype r x)
+      (filledValues data name) =
+      .ok ((filledValues data name).map (fun x => if x.isNone then ((List.replicate r 0, []) : Row) else pyRow x)) := by
+    apply mapE_ok_map
+    intro y hy
+    cases hyn : y.isNone with
+    | true => simp
+    | false =>
+      obtain ⟨sh, fl, rfl, hlen, hleaves, _, _⟩ := hfacts y (List.mem_filter.2 ⟨hy, by simp [hyn]⟩)
+      have hc : castRow K.dtype (sh, fl) = .ok (sh, fl) :=
+        castRow_id _ _ (fun v hv' => castTo_of_class K v (hleaves v hv'))
+      simp only [Bool.false_eq_true, if_false, varLenRow, pyRow, hc, hlen, Nat.sub_self, List.replicate_zero,
+        List.nil_append]
+  refine ⟨{ dtype := K.dtype, varlen := true,
+            rows := (filledValues data name).map (fun x => if x.isNone then ((List.replicate r 0, []) : Row) else pyRow x),
+            missing := some (orMasks (missingMask data name) ((filledValues data name).map PyVal.isNone)) },
+          by simp only [dictPropToArr, hanyN, hanyA, if_true, varLenWithNone, hctd, hd, if_false, hrows], ?_, ?_⟩
+  · constructor
+    · simp [filledValues]
+    · intro ms hms
+      simp only [Option.some.injEq] at hms
+      subst hms
+      rw [length_orMasks _ _ (by simp [missingMask, filledValues])]
+      simp [missingMask]
+  · intro i hi
+    have hm1 : (missingMask data name)[i]? = some (data[i].2.lookup name).isNone := by simp [missingMask, hi]
+    have hm2 : ((filledValues data name).map PyVal.isNone)[i]? =
+        some ((data[i].2.lookup name).getD (determineDefaultValue data name)).isNone := by
+      simp [filledValues, hi]
+    have hrow : ((filledValues data name).map (fun x => if x.isNone then ((List.replicate r 0, []) : Row) else pyRow x))[i]? =
+        some (if ((data[i].2.lookup name).getD (determineDefaultValue data name)).isNone then ((List.replicate r 0, []) : Row)
+              else pyRow ((data[i].2.lookup name).getD (determineDefaultValue data name))) := by
+      simp [filledValues, hi]
+    simp only [Col.entry, hrow, getElem?_orMasks _ _ i _ _ hm1 hm2]
+    cases hl : data[i].2.lookup name with
+    | none => simp [shown]
+    | some v =>
+      cases v with
+      | none => simp [shown, PyVal.isNone]
+      | sc x =>
+        exfalso
+        obtain ⟨sh, fl, he, _⟩ := hall (.sc x) (List.mem_filter.2
+          ⟨mem_present data name data[i] (.sc x) (List.getElem_mem hi) hl, rfl⟩)
+        cases he
+      | arr sh fl => simp [shown, PyVal.isNone, pyRow, rowToPy_true]
+
+
 /-! ### all properties -/
 
 theorem lookup_mem {β : Type} (l : List (String × β)) (k : String) (v : β) (h : l.lookup k = some v) : (k, v) ∈ l := by
